@@ -1836,6 +1836,37 @@ class TaskDispatcher(object):
                         )
 
 
+                elif not async_child:
+                    """
+                    The child was launched before the restart. It may have
+                    ended in the meantime: its last event can be handled before
+                    this redelivered Task has registered its request again, in
+                    which case handle_sfn_response() found nothing to complete
+                    and will not be called for that child again. So if the
+                    child's execution record shows that it has ended, complete
+                    the Task from that record.
+                    """
+                    ended = self.state_engine.executions.get(child_execution_arn)
+                    if ended and ended.get("status") not in (None, "RUNNING"):
+                        ended = dict(ended)
+                        try:
+                            child_input = json.loads(ended.get("input"))
+                        except (TypeError, ValueError):
+                            child_input = ended.get("input")
+                        if ended.get("status") == "SUCCEEDED":
+                            try:
+                                child_output = json.loads(ended.get("output"))
+                            except (TypeError, ValueError):
+                                child_output = ended.get("output")
+                        else:
+                            child_output = {
+                                "Error": ended.get("error"),
+                                "Cause": ended.get("cause"),
+                            }
+                        self.handle_sfn_response(
+                            child_execution_arn, child_input, child_output, ended
+                        )
+
                 """
                 For "fire and forget"/async child executions we trigger the
                 Task state on_response() handler immediately with the result.
